@@ -103,9 +103,20 @@ func c13Verify(c *Ctx, prog *load.Program) {
 	})
 	okc, _ := Equivalent(code, wrong)
 	c.R.ControlResult("C13-1", "e-not-negated", "R = s*G + e*P must not be equivalent to the code", !okc)
+	// verification is read-only: the key object must behave identically on every later call
+	{
+		rr := RunFn(prog, protoSet(nil), name, &RunOpts{Args: named("k", "msg", "sig"), Pre: schnorrPubArgs(prog, px, nil), Config: func(cfg *absint.Config) { cfg.RecordStores = true }})
+		bad := ""
+		for _, e := range rr.Ex.Events {
+			if e.Kind == absint.EvStore && e.Ptr != nil && e.Ptr.Obj.Origin.Kind != "local" && e.Pos.IsValid() {
+				bad = fmt.Sprintf("store to %s (%s) at %s", e.Ptr, e.Ptr.Obj.Origin.Root, PosStr(prog, e.Pos))
+			}
+		}
+		c.R.Decide(bad == "", "C13-1", "Verify/read-only", pos, "Verify stores into no memory reachable from the key, the message or the signature", "Verify modifies an operand, so a later call on the same key behaves differently: "+bad)
+	}
 	n, fpos, fmsg := checkBounds(r)
 	c.R.Decide(fmsg == "", "C13-1", "Verify/index-safety", pos, fmt.Sprintf("%d bounds checks proven from the length test", n), "a slice / conversion may be out of range at "+fpos+": "+fmsg)
-	c.R.Floor("C13-1", 2)
+	c.R.Floor("C13-1", 3)
 }
 
 func stringConst(prog *load.Program, pkg, name string) (string, bool) {
